@@ -89,6 +89,9 @@ CLAIMED["C04"] = dict(
          "short-read rules, write session): size fields / padding rules for every N, closed bytes independent of the stale frames value and of header updates, the W64 open-time "
          "'fact' leak as a proved witness; the universal parse(image) theorem is not yet proved for them (concrete instances by kernel evaluation; the parser is tied to the "
          "code on library-written files and ~7000 truncated/damaged variants per run).",
+         "containers are not modelled (covered by B). AIFF / AIFF-C has its own byte-exact model (SfModel/Aiff.lean, theorems SfProps/C04Aiff.lean: aiff_reopen_info, "
+         "aiff_size_fields, aiff_rate_roundtrip with the proved 2^30 counter-example, aiff_snapshot_valid, stale_frames_ignored_aiff), tied by vlib/aiff.py: every accepted "
+         "sample-granular AIFF encoding x channels x rates x lengths, all header/tail bytes of three store images per session, and library files plus mutants through both parsers.",
     technique="Lean 4 theorems over a hand-written container model + differential correspondence + predicate on implementation transcripts",
     design_ref="DESIGN.md §7 C04")
 CLAIMED["C07"] = dict(
